@@ -233,6 +233,9 @@ def corpus():
     # several recorded files of exactly the same size (fixed-size sectors / thumbnails), contents pairwise distinct
     same = [f('sectors/s%03d.img' % i, ['r', 50 + i, 512], 1_450_000_000 + i) for i in range(4)] + [f('thumbs/a.thumb', ['r', 60, 512], 1_440_000_000, 5)]
     out.append({'root': 'T', 'files': same, 'scraped': [['x%d' % i, ['o', i], None] for i in range(5)] + [['junk', ['u', 3, 512], None]]})
+    # recorded times at and next to the Unix epoch (reproducible archives, container layers): 0.0 is a time like any other
+    ep = [f('layer/etc/hostname', ['r', 8, 33], 0), f('layer/etc/motd', ['r', 9, 12], 1), f('readme', ['r', 10, 40], 0, 500_000_000)]
+    out.append({'root': 'T', 'files': ep, 'scraped': [['dump/%d.chk' % i, ['o', i], None] for i in range(3)]})
     return out
 
 
